@@ -16,13 +16,30 @@
 #define CMP 0 // 0 overload without comparator/predicate, 1 greater, 2 key-only (low 16 bits; equality on the key only)
 #endif
 #ifndef ELEM
-#define ELEM 0 // 0 int, 1 struct KT {int16 key; int16 tag;} whose operators look at the key only
+#define ELEM 0 // 0 int, 1 struct KT {int16 key; int16 tag;} whose operators look at the key only, 2 move-observable struct Mv
 #endif
 
 #if ELEM == 0
 typedef int T;
 static inline unsigned bits(T const& x) { return (unsigned)x; }
 static inline T mk_t(unsigned v) { return (T)v; }
+#elif ELEM == 2
+// move-observable element: moving FROM an object leaves the sentinel behind, so a self-move-assignment destroys the value and a
+// read of a moved-from element is visible. Copies are plain. Used identically by the etl kernel and the libstdc++ oracle.
+#define MV_SENTINEL (-2147483647 - 1)
+struct Mv {
+    int v;
+    Mv() = default;
+    Mv(Mv const&) = default;
+    Mv& operator=(Mv const&) = default;
+    Mv(Mv&& o) noexcept : v(o.v) { o.v = MV_SENTINEL; }
+    Mv& operator=(Mv&& o) noexcept { v = o.v; o.v = MV_SENTINEL; return *this; }
+    friend bool operator<(Mv const& a, Mv const& b) { return a.v < b.v; }
+    friend bool operator==(Mv const& a, Mv const& b) { return a.v == b.v; }
+};
+typedef Mv T;
+static inline unsigned bits(T const& x) { return (unsigned)x.v; }
+static inline T mk_t(unsigned v) { T t; t.v = (int)v; return t; }
 #else
 struct KT {
     short key;
